@@ -703,7 +703,7 @@ class RelationSchema:
                 if value is None:
                     if not column.nullable:
                         errors["Column not Nullable"].append(column.name)
-                elif column.type != OrsoTypes._MISSING_TYPE and not isinstance(
+                elif column.type not in (OrsoTypes._MISSING_TYPE, 0) and not isinstance(
                     value, ORSO_TO_PYTHON_MAP[column.type]
                 ):
                     errors["Incorrect Type"].append(
